@@ -1171,6 +1171,365 @@ fn combine_all_ex(c: &mut Ctx, copies: &[Pczt], label: &str, made: &Made, lenien
     first_ok
 }
 
+
+// ---------------------------------------------------------------------------------------------
+// fields only a third-party Constructor / Creator sets (injected through the value tree)
+// ---------------------------------------------------------------------------------------------
+
+use tree::Step::{I as Ix, K};
+
+/// Edits `p` the way a foreign Constructor could have produced it: explicit (non-final) input
+/// sequences, per-input required lock times, an absent or non-zero fallback lock time. These are
+/// transaction-effecting fields that the workspace's own builder never sets.
+fn inject_foreign(c: &mut Ctx, p: &Pczt, rng: &mut ChaCha20Rng) -> Option<(Pczt, String)> {
+    let mut t = tree(p).ok()?;
+    let n_in = at(&t, &[K("transparent"), K("inputs")]).map(arr_len).unwrap_or(0);
+    let mut tags: Vec<&'static str> = vec![];
+    let mut set = |t: &mut V, path: &[tree::Step<'_>], v: V| -> bool {
+        match at_mut(t, path) {
+            Some(slot) => {
+                *slot = v;
+                true
+            }
+            None => false,
+        }
+    };
+    // fallback lock time
+    match rng.gen_range(0..5) {
+        0 => {
+            if set(&mut t, &[K("global"), K("fallback_lock_time")], V::Null) {
+                tags.push("fallback-absent");
+            }
+        }
+        1 => {
+            if set(&mut t, &[K("global"), K("fallback_lock_time")], uint(rng.gen_range(1..499_999_999))) {
+                tags.push("fallback-nonzero");
+            }
+        }
+        _ => {}
+    }
+    if n_in > 0 {
+        let lock_kind = rng.gen_range(0..4); // 0,1: none; 2: height; 3: time
+        let mut any_seq = false;
+        for i in 0..n_in {
+            match rng.gen_range(0..6) {
+                0 | 1 => {
+                    let v = *[0xFFFF_FFFEu64, 0xFFFF_FFFE, 0, 5, 0x8000_0001].choose(rng).unwrap();
+                    if set(&mut t, &[K("transparent"), K("inputs"), Ix(i), K("sequence")], uint(v)) {
+                        any_seq = true;
+                    }
+                }
+                2 => {
+                    if set(&mut t, &[K("transparent"), K("inputs"), Ix(i), K("sequence")], uint(0xFFFF_FFFF)) {
+                        tags.push("sequence-final-explicit");
+                    }
+                }
+                _ => {}
+            }
+            if lock_kind >= 2 && (i == 0 || rng.gen_bool(0.5)) {
+                let (key, v, tag) = if lock_kind == 2 {
+                    ("required_height_lock_time", rng.gen_range(1..499_999_999u64), "required-height-lock")
+                } else {
+                    ("required_time_lock_time", rng.gen_range(500_000_000..2_000_000_000u64), "required-time-lock")
+                };
+                if set(&mut t, &[K("transparent"), K("inputs"), Ix(i), K(key)], uint(v)) && !tags.contains(&tag) {
+                    tags.push(tag);
+                }
+            }
+        }
+        if any_seq {
+            tags.push("sequence-non-final");
+        }
+    }
+    if tags.is_empty() {
+        return None;
+    }
+    let q = from_tree(&t).ok()?;
+    // must still describe a transaction
+    txid_of(&q).ok()?;
+    for tg in &tags {
+        c.r.count(&format!("foreign_constructor:{tg}"), 1);
+    }
+    Some((q, tags.join("+")))
+}
+
+/// Pairs of copies that differ in ONE field, made through the value tree: present-vs-present
+/// conflicts on required / global fields, and absent-vs-present pairs on fields whose absence has a
+/// defined meaning (fallback lock time 0, sequence 0xFFFFFFFF, "no required lock time").
+fn field_pairs(c: &mut Ctx, base: &Pczt, rng: &mut ChaCha20Rng, made: &Made, how_many: usize) {
+    let Ok(t0) = tree(base) else { return };
+    let n_in = at(&t0, &[K("transparent"), K("inputs")]).map(arr_len).unwrap_or(0);
+    let n_out = at(&t0, &[K("transparent"), K("outputs")]).map(arr_len).unwrap_or(0);
+    let txv = at(&t0, &[K("global"), K("tx_version")]).and_then(as_u64).unwrap_or(0);
+    // (label, path, value in X (None = keep), value in Y, lenient)
+    struct Pair {
+        label: &'static str,
+        path: Vec<tree::Step<'static>>,
+        x: Option<V>,
+        y: V,
+        lenient: bool,
+    }
+    let g = |k: &'static str| vec![K("global"), K(k)];
+    let cur = |path: &[tree::Step<'_>]| at(&t0, path).and_then(as_u64);
+    let mut pairs: Vec<Pair> = vec![];
+    let nz = rng.gen_range(1..499_999_999u64);
+    pairs.push(Pair { label: "global.fallback_lock_time:absent-vs-nonzero", path: g("fallback_lock_time"), x: Some(V::Null), y: uint(nz), lenient: false });
+    pairs.push(Pair { label: "global.fallback_lock_time:absent-vs-zero", path: g("fallback_lock_time"), x: Some(V::Null), y: uint(0), lenient: true });
+    pairs.push(Pair { label: "global.fallback_lock_time:differs", path: g("fallback_lock_time"), x: Some(uint(7)), y: uint(9), lenient: false });
+    if let Some(e) = cur(&g("expiry_height")) {
+        pairs.push(Pair { label: "global.expiry_height:differs", path: g("expiry_height"), x: None, y: uint(e + 1), lenient: false });
+    }
+    if let Some(ct) = cur(&g("coin_type")) {
+        pairs.push(Pair { label: "global.coin_type:differs", path: g("coin_type"), x: None, y: uint(ct ^ 1), lenient: false });
+    }
+    if txv == 5 {
+        if let Some(b) = cur(&g("consensus_branch_id")) {
+            let other = if b == 0xC8E7_1055 { 0xC2D6_D0B4u64 } else { 0xC8E7_1055 };
+            pairs.push(Pair { label: "global.consensus_branch_id:differs", path: g("consensus_branch_id"), x: None, y: uint(other), lenient: false });
+        }
+    }
+    if let Some(m) = cur(&g("tx_modifiable")) {
+        pairs.push(Pair { label: "global.tx_modifiable:reserved-bit", path: g("tx_modifiable"), x: None, y: uint(m | 0x10), lenient: false });
+        // legitimate difference: one party still considers the outputs modifiable
+        pairs.push(Pair { label: "global.tx_modifiable:modifiable-bits", path: g("tx_modifiable"), x: Some(uint((m & 0x87) | 0x02)), y: uint((m & 0x87) | 0x04), lenient: false });
+    }
+    if n_in > 0 {
+        let i = rng.gen_range(0..n_in);
+        let ip = |k: &'static str| vec![K("transparent"), K("inputs"), Ix(i), K(k)];
+        pairs.push(Pair { label: "transparent.inputs[].sequence:absent-vs-non-final", path: ip("sequence"), x: Some(V::Null), y: uint(0xFFFF_FFFE), lenient: false });
+        pairs.push(Pair { label: "transparent.inputs[].sequence:absent-vs-final", path: ip("sequence"), x: Some(V::Null), y: uint(0xFFFF_FFFF), lenient: true });
+        pairs.push(Pair { label: "transparent.inputs[].sequence:differs", path: ip("sequence"), x: Some(uint(1)), y: uint(2), lenient: false });
+        pairs.push(Pair { label: "transparent.inputs[].required_height_lock_time:absent-vs-present", path: ip("required_height_lock_time"), x: Some(V::Null), y: uint(rng.gen_range(1..499_999_999)), lenient: false });
+        pairs.push(Pair { label: "transparent.inputs[].required_time_lock_time:absent-vs-present", path: ip("required_time_lock_time"), x: Some(V::Null), y: uint(rng.gen_range(500_000_000..2_000_000_000)), lenient: false });
+        if let Some(v) = cur(&ip("value")) {
+            pairs.push(Pair { label: "transparent.inputs[].value:differs", path: ip("value"), x: None, y: uint(v + 1), lenient: false });
+        }
+        if let Some(v) = cur(&ip("prevout_index")) {
+            pairs.push(Pair { label: "transparent.inputs[].prevout_index:differs", path: ip("prevout_index"), x: None, y: uint(v ^ 1), lenient: false });
+        }
+        pairs.push(Pair { label: "transparent.inputs[].sighash_type:differs", path: ip("sighash_type"), x: None, y: uint(0x81), lenient: false });
+    }
+    if n_out > 0 {
+        let i = rng.gen_range(0..n_out);
+        let op = |k: &'static str| vec![K("transparent"), K("outputs"), Ix(i), K(k)];
+        if let Some(v) = cur(&op("value")) {
+            pairs.push(Pair { label: "transparent.outputs[].value:differs", path: op("value"), x: None, y: uint(v ^ 1), lenient: false });
+        }
+    }
+    for (pool, list) in [("sapling", "spends"), ("orchard", "actions"), ("ironwood", "actions")] {
+        let n = at(&t0, &[K(pool), K(list)]).map(arr_len).unwrap_or(0);
+        if n == 0 {
+            continue;
+        }
+        let i = rng.gen_range(0..n);
+        let path: Vec<tree::Step<'static>> = if pool == "sapling" {
+            vec![K(pool), K(list), Ix(i), K("nullifier"), Ix(0)]
+        } else {
+            vec![K(pool), K(list), Ix(i), K("spend"), K("nullifier"), Ix(0)]
+        };
+        if let Some(b) = cur(&path) {
+            let label = match pool {
+                "sapling" => "sapling.spends[].nullifier:differs",
+                "orchard" => "orchard.actions[].spend.nullifier:differs",
+                _ => "ironwood.actions[].spend.nullifier:differs",
+            };
+            pairs.push(Pair { label, path, x: None, y: uint(b ^ 1), lenient: false });
+        }
+    }
+    pairs.shuffle(rng);
+    // the absent-vs-present pairs are the point of this experiment: always keep some of them
+    pairs.sort_by_key(|p| !(p.label.contains("absent-vs")));
+    let n_abs = pairs.iter().filter(|p| p.label.contains("absent-vs")).count();
+    let mut chosen: Vec<Pair> = vec![];
+    let take_abs = n_abs.min(how_many.div_ceil(2) + 1);
+    let mut rest: Vec<Pair> = pairs.drain(n_abs..).collect();
+    pairs.shuffle(rng);
+    chosen.extend(pairs.into_iter().take(take_abs));
+    rest.shuffle(rng);
+    chosen.extend(rest.into_iter().take(how_many.saturating_sub(1)));
+    for pr in chosen {
+        let mut tx_ = t0.clone();
+        let mut ty_ = t0.clone();
+        if let Some(xv) = &pr.x {
+            match at_mut(&mut tx_, &pr.path) {
+                Some(slot) => *slot = xv.clone(),
+                None => continue,
+            }
+        }
+        match at_mut(&mut ty_, &pr.path) {
+            Some(slot) => *slot = pr.y.clone(),
+            None => continue,
+        }
+        let (Ok(x), Ok(y)) = (from_tree(&tx_), from_tree(&ty_)) else {
+            c.r.count(&format!("field_pair_unbuildable:{}", pr.label), 1);
+            continue;
+        };
+        c.r.count("field_pair_cases", 1);
+        c.r.count(&format!("field_pair:{}", pr.label), 1);
+        if pr.label.contains("absent-vs") {
+            c.r.count("field_pair_absent_vs_present", 1);
+        }
+        let mut set = vec![x, y];
+        if rng.gen_bool(0.4) {
+            // a third copy that agrees with X
+            set.push(set[0].clone());
+        }
+        combine_all_ex(c, &set, pr.label, made, pr.lenient);
+    }
+}
+
+/// Redactor compaction of Orchard / Ironwood ciphertexts into memo plaintexts (v2 only): the
+/// compacted PCZT must round-trip, imply the same txid, resolve back to the original value, and
+/// be accepted by the next role.
+fn memo_compaction(c: &mut Ctx, p: &Pczt, stage: &str, txid0: &Result<TxId, String>, made: &Made, rng: &mut ChaCha20Rng) {
+    let (no, ni) = (p.orchard().actions().len(), p.ironwood().actions().len());
+    if no + ni == 0 {
+        return;
+    }
+    let want = tree(p).expect("tree");
+    let v2n = orchard::note::NoteVersion::V2;
+    let v3n = orchard::note::NoteVersion::V3;
+    let variants: Vec<(&str, Pczt)> = vec![
+        (
+            "compact_resolvable_fields",
+            Redactor::new(p.clone())
+                .redact_orchard_with(|mut o| o.compact_resolvable_fields())
+                .redact_ironwood_with(|mut o| o.compact_resolvable_fields())
+                .finish(),
+        ),
+        (
+            "decrypted_memo_plaintext",
+            Redactor::new(p.clone())
+                .redact_orchard_with(|mut o| o.redact_actions(|mut a| a.replace_enc_ciphertext_with_decrypted_memo_plaintext(v2n)))
+                .redact_ironwood_with(|mut o| o.redact_actions(|mut a| a.replace_enc_ciphertext_with_decrypted_memo_plaintext(v3n)))
+                .finish(),
+        ),
+        ("given_memo_plaintext", {
+            // the wallet knows the memo of a requested output: replaces that one ciphertext
+            let r = &made.req;
+            let n_plain = r.o_out.iter().filter(|o| !o.change).count();
+            let mut kc = 0;
+            let mut o_jobs: Vec<(usize, [u8; 512])> = vec![];
+            let mut kp = 0;
+            for o in r.o_out.iter() {
+                let k = if o.change {
+                    kc += 1;
+                    n_plain + kc - 1
+                } else {
+                    kp += 1;
+                    kp - 1
+                };
+                if let Some(i) = made.ometa.output_action_index(k) {
+                    o_jobs.push((i, memo_array(&o.memo)));
+                }
+            }
+            let i_jobs: Vec<(usize, [u8; 512])> = r
+                .i_out
+                .iter()
+                .enumerate()
+                .filter_map(|(k, o)| made.imeta.output_action_index(k).map(|i| (i, memo_array(&o.memo))))
+                .collect();
+            Redactor::new(p.clone())
+                .redact_orchard_with(|mut o| {
+                    for (i, m) in &o_jobs {
+                        o.redact_action(*i, |mut a| a.replace_enc_ciphertext_with_memo_plaintext(*m));
+                    }
+                })
+                .redact_ironwood_with(|mut o| {
+                    for (i, m) in &i_jobs {
+                        o.redact_action(*i, |mut a| a.replace_enc_ciphertext_with_memo_plaintext(*m));
+                    }
+                })
+                .finish()
+        }),
+    ];
+    for (name, q) in variants {
+        let Ok(tq) = tree(&q) else { continue };
+        // what did we get?
+        let mut lens: Vec<usize> = vec![];
+        for pool in ["orchard", "ironwood"] {
+            if let Some(V::Array(acts)) = at(&tq, &[K(pool), K("actions")]) {
+                for a in acts {
+                    if let Some(V::Map(m)) = at(a, &[K("output"), K("enc_ciphertext")]) {
+                        for (k, v) in m {
+                            if matches!(k, V::Text(s) if s == "MemoPlaintext") {
+                                lens.push(arr_len(v));
+                            }
+                        }
+                    }
+                }
+            }
+        }
+        if lens.is_empty() {
+            c.r.count("memo_compaction_nothing_compacted", 1);
+            continue;
+        }
+        c.r.count("memo_compactions", 1);
+        c.r.count(&format!("memo_compaction:{name}"), 1);
+        for l in &lens {
+            let b = match l {
+                0 => "0",
+                1 => "1",
+                511 => "511",
+                512 => "512",
+                _ => "2-510",
+            };
+            c.r.count(&format!("memo_plaintext_len:{b}"), 1);
+        }
+        let st = format!("redactor-compaction:{stage}");
+        check_roundtrip(c, &q, &st, made);
+        check_txid(c, "redactor-compaction", &q, txid0, made, false);
+        // resolves back to the same value
+        let mut r = q.clone();
+        match guard(|| r.resolve_fields().map(|_| r)) {
+            Ok(Ok(r)) => {
+                let tr = tree(&r).expect("tree");
+                if same(&tr, &want) {
+                    c.r.count("memo_compaction_resolved_back", 1);
+                } else {
+                    let mut d = vec![];
+                    diff(&want, &tr, "", &mut d, 4);
+                    let g = d.first().map(|x| generic_path(x)).unwrap_or_default();
+                    viol(
+                        c,
+                        &format!("redactor:compaction:{name}:resolve-differs:{}", g.split(' ').next().unwrap_or("")),
+                        format!("resolve_fields() after {name} does not give the original PCZT back: {d:?}"),
+                        stage_json(&st, made),
+                    );
+                }
+            }
+            Ok(Err(e)) => viol(
+                c,
+                &format!("redactor:compaction:{name}:does-not-resolve"),
+                format!("resolve_fields() failed after {name}: {e:?}"),
+                stage_json(&st, made),
+            ),
+            Err(pn) => viol(c, &format!("redactor:compaction:panic:{}", panic_class(&pn)), pn, stage_json(&st, made)),
+        }
+        // handed over the wire, the next role must take it: IoFinalizer (before IO finalisation)
+        // or Signer (after)
+        if rng.gen_bool(0.5) {
+            if let Ok(bytes) = q.clone().serialize() {
+                if let Ok(q2) = Pczt::parse(&bytes) {
+                    let next = if stage == "updater" {
+                        guard(|| IoFinalizer::new(q2.clone()).finalize_io().map_err(|e| format!("{e:?}")))
+                    } else {
+                        guard(|| Signer::new(q2.clone()).map(|s| s.finish()).map_err(|e| format!("{e:?}")))
+                    };
+                    match next {
+                        Ok(Ok(n)) => {
+                            c.r.count("memo_compaction_next_role_ok", 1);
+                            check_txid(c, "role-after-compaction", &n, txid0, made, false);
+                        }
+                        Ok(Err(e)) => c.r.count(&format!("memo_compaction_next_role_err:{}", e.chars().take(30).collect::<String>()), 1),
+                        Err(pn) => viol(c, &format!("role-after-compaction:panic:{}", panic_class(&pn)), pn, stage_json(&st, made)),
+                    }
+                }
+            }
+        }
+    }
+}
+
 // ---------------------------------------------------------------------------------------------
 // one case
 // ---------------------------------------------------------------------------------------------
@@ -1258,7 +1617,19 @@ fn run_case(c: &mut Ctx, rng: &mut ChaCha20Rng, made: Made, real: bool, ops: &[R
         }
     }
     c.txid_moved = false;
+    c.foreign = String::new();
+    let mut made = made;
+    // a third-party Constructor may have set effecting fields the workspace's builder never sets
+    if rng.gen_bool(0.45) {
+        if let Some((q, tags)) = inject_foreign(c, &made.p, rng) {
+            made.p = q;
+            c.foreign = tags;
+            c.r.count("foreign_constructor_cases", 1);
+        }
+    }
+    let made = made;
     let p0 = made.p.clone();
+    c.fp0 = fingerprint(&p0).ok();
     let txid0 = txid_of(&p0);
     if txid0.is_err() {
         c.r.count("no_effects_at_creation", 1);
@@ -1291,6 +1662,9 @@ fn run_case(c: &mut Ctx, rng: &mut ChaCha20Rng, made: Made, real: bool, ops: &[R
     };
     if upd_first {
         p = step_upd(c, p, rng);
+        if rng.gen_bool(0.5) {
+            memo_compaction(c, &p, "updater", &txid0, &made, rng);
+        }
         // a Signer may come before the IO Finalizer if the API lets it
         let early = duties(&made);
         if !early.is_empty() && rng.gen_bool(0.35) {
@@ -1312,6 +1686,8 @@ fn run_case(c: &mut Ctx, rng: &mut ChaCha20Rng, made: Made, real: bool, ops: &[R
     }
     let pa = p;
     strip_and_restore(c, &pa, &txid0, &made);
+    memo_compaction(c, &pa, "io_finalizer", &txid0, &made, rng);
+    field_pairs(c, &pa, rng, &made, if thorough { 5 } else { 3 });
 
     // Redactor: every applicable operation once on a fork (all items or one item)
     {
@@ -1559,6 +1935,9 @@ fn run_case(c: &mut Ctx, rng: &mut ChaCha20Rng, made: Made, real: bool, ops: &[R
 
     // finish the pipeline from the combined PCZT
     let Some(mut p) = combined else { return };
+    if rng.gen_bool(0.5) {
+        field_pairs(c, &p, rng, &made, 2);
+    }
     // if every party stripped something the effects need (e.g. an anchor), nobody carries it any
     // more: that is the parties' doing, not the Combiner's (which was compared with the union)
     let lenient = txid_of(&p).is_err();
